@@ -1,1 +1,114 @@
+//! Probes built on kira's public traits: a backend that owns the renderer, programmable sounds,
+//! effects, modulators and decoders that log what the mixer does to them.
 
+pub mod decoder;
+pub mod effect;
+pub mod sound;
+
+use crate::engine::monitor::{self, Guarded};
+use kira::backend::{Backend, Renderer};
+use kira::track::MainTrackBuilder;
+use kira::{AudioManager, AudioManagerSettings, Capacities};
+
+pub use decoder::{DecoderLog, FaultPlan, ScriptDecoder, ScriptError};
+pub use effect::{EffectLog, ProbeEffectBuilder, ProbeKind};
+pub use sound::{ProbeSoundData, ProbeSoundHandle, Signal, SoundLog};
+
+/// value the output buffer is pre-filled with; any sample left at this value was not written
+pub const SENTINEL: f32 = 12345.678;
+
+pub struct VBackend {
+	pub renderer: Option<Renderer>,
+	pub sample_rate: u32,
+}
+
+impl Backend for VBackend {
+	type Settings = u32;
+	type Error = ();
+
+	fn setup(sample_rate: u32, _internal_buffer_size: usize) -> Result<(Self, u32), ()> {
+		Ok((
+			Self {
+				renderer: None,
+				sample_rate,
+			},
+			sample_rate,
+		))
+	}
+
+	fn start(&mut self, renderer: Renderer) -> Result<(), ()> {
+		self.renderer = Some(renderer);
+		Ok(())
+	}
+}
+
+pub struct Callback {
+	/// interleaved output; empty if the callback panicked
+	pub out: Vec<f32>,
+	pub guard: Guarded,
+}
+
+impl Callback {
+	pub fn frame(&self, i: usize, channels: usize) -> (f32, f32) {
+		(self.out[i * channels], self.out[i * channels + 1.min(channels - 1)])
+	}
+}
+
+impl VBackend {
+	/// One device callback exactly as the cpal backend performs it: `on_start_processing`, then
+	/// `process` on a buffer of `frames * channels` samples, with the monitors armed.
+	pub fn callback(&mut self, frames: usize, channels: u16) -> Callback {
+		let mut out = vec![SENTINEL; frames * channels as usize];
+		let renderer = self.renderer.as_mut().expect("renderer");
+		let (_, guard) = monitor::as_callback(|| {
+			renderer.on_start_processing();
+			renderer.process(&mut out, channels);
+		});
+		Callback { out, guard }
+	}
+
+	/// The device changed its sample rate (cpal calls this between callbacks, from its stream
+	/// manager, so it is not subject to the real-time monitors).
+	pub fn change_sample_rate(&mut self, sample_rate: u32) {
+		self.sample_rate = sample_rate;
+		self.renderer.as_mut().expect("renderer").on_change_sample_rate(sample_rate);
+	}
+}
+
+pub type Mgr = AudioManager<VBackend>;
+
+pub fn manager(sample_rate: u32, internal_buffer_size: usize, capacities: Capacities, main: MainTrackBuilder) -> Mgr {
+	AudioManager::<VBackend>::new(AudioManagerSettings {
+		capacities,
+		main_track_builder: main,
+		internal_buffer_size,
+		backend_settings: sample_rate,
+	})
+	.expect("VBackend cannot fail")
+}
+
+pub fn default_manager(sample_rate: u32, internal_buffer_size: usize) -> Mgr {
+	manager(sample_rate, internal_buffer_size, Capacities::default(), MainTrackBuilder::new())
+}
+
+/// Convenience: render `frames` frames in callbacks of the given sizes (cycled), stereo, and
+/// return the concatenated output plus the guards.
+pub fn render(mgr: &mut Mgr, total_frames: usize, callback_sizes: &[usize]) -> (Vec<(f32, f32)>, Vec<Guarded>) {
+	let mut out = Vec::with_capacity(total_frames);
+	let mut guards = vec![];
+	let mut k = 0;
+	while out.len() < total_frames {
+		let n = callback_sizes[k % callback_sizes.len()].max(1).min(total_frames - out.len());
+		k += 1;
+		let cb = mgr.backend_mut().callback(n, 2);
+		if cb.guard.panic.is_some() {
+			guards.push(cb.guard);
+			break;
+		}
+		for i in 0..n {
+			out.push((cb.out[2 * i], cb.out[2 * i + 1]));
+		}
+		guards.push(cb.guard);
+	}
+	(out, guards)
+}
